@@ -345,6 +345,25 @@ def check_drg(ctx, P):
             ok, why = _buffer_zero_at(fn, c)
             ctx.check(ok, "nodep", "drg::chacha::Drg::%s" % g, "buffer handed to the cipher is all-zero on entry (%s)" % why,
                       "Drg::%s XORs the keystream into a buffer that is not cleared first (%s): output depends on the buffer's prior contents" % (g, why), where=fn.where(c.line), key="nodep:drg::chacha::Drg::%s" % g)
+        # exactly as many keystream bytes are consumed as are delivered: ONE draw, outside any loop, on every path, over the
+        # whole destination (a block-wise refill would throw away the unused tail of its last block, so later requests
+        # would depend on how earlier ones were sized)
+        draws = pcs + viab
+        whole = False
+        if len(draws) == 1:
+            c = draws[0]
+            if c in pcs:
+                buf = pred.canon(fn.expr(c.args[1]), fn)
+                if g in ("fill_bytes", "fill_slice"):
+                    whole = buf == "arg2"
+                else:
+                    whole = buf.startswith("v:") and pred.canon(fn.local_expr(0), fn) == buf
+            else:
+                want = {"u32": "4", "u64": "8"}.get(g)
+                whole = want is not None and list(c.ga or [])[-1:] == [want]
+        okd = len(draws) == 1 and draws[0].bb not in fn.loop_blocks() and rules.every_ret_path_passes(fn, [draws[0].bb]) and whole
+        ctx.check(okd, "drg-exact", g, "%s draws its keystream in one request over exactly the bytes it delivers" % g,
+                  "Drg::%s does not consume exactly the bytes it delivers (one draw over the whole destination, outside any loop): draws=%s" % (g, [(c.name().split("::")[-1], [pred.canon(fn.expr(a), fn)[:40] for a in c.args], "in-loop" if c.bb in fn.loop_blocks() else "") for c in draws]), where=fn.where(), key="drg-exact:%s" % g)
     nf = P.fn("drg::chacha::Drg::<ROUNDS>::new")
     cs = nf.calls_to(r"chacha20::ChaCha::<ROUNDS>::new$")
     okn = False
@@ -492,6 +511,12 @@ def run(ctx):
         ctx.guard("new-offset", T, lambda: check_new(ctx, P, T))
         ctx.guard("process-order", T, lambda: check_process(ctx, P, T))
     ctx.guard("sibling", "ciphers", lambda: check_siblings(ctx, P))
+    # seek / block stepping are only as good as the engine's counter operations: set_counter, increment and the 64-bit
+    # carry of the engine actually built (value-graph rule shared with C03)
+    from . import arx
+    got = []
+    ctx.guard("block-eq", "engines", lambda: got.append(arx.check_engines(ctx, {"K0": P})))
+    ctx.check(got == [28], "floor", "block-eq", "28 engine pieces of the default build compared with the specification", "only %s engine pieces compared" % got, key="floor:block-eq")
     ctx.guard("nodep", "drg", lambda: check_drg(ctx, P))
     ctx.guard("clone", "ciphers", lambda: check_clone(ctx, P))
     ctx.not_decided += ["keystream values (C03)", "offset in [0,64] as an inductive interval invariant and bounds of every slice expression (tier 2)"]
